@@ -189,13 +189,13 @@ add("C32", "c_files",
     note="Upload refusal is allowed only where upstream documents it.",
     assumptions=["source content is a pure function of the offset"])
 add("C33", "c_files",
-    [T("TestC33", 8000, 100000, env=BUBBLE), T("TestC33Parallel", 4000, 50000, env={"GOMAXPROCS": "4"})],
+    [T("TestC33", 8000, 100000, env=BUBBLE), T("TestC33Parallel", 4000, 50000, env={"GOMAXPROCS": "4"}), T("TestC34HashFlood", 10, 100, env={"GOMAXPROCS": "4"}, shards=4)],
     rule="file sizes around k*part, exact multiples, uniform, tiny (<= 8 MiB); part sizes 4 KiB..1 MiB; 1..8 threads; Stream/Parallel; honest master with per-(chunk,attempt) faults FLOOD_WAIT, FLOOD_PREMIUM_WAIT, rpc Timeout, context.DeadlineExceeded, net timeouts; latencies 0/5/50/3000 ms so replies complete out of order. non-trivial = size % part == 0 or (Parallel, threads>=2, >=1 retry); distinct by parameters",
     technique="model-based PBT on virtual time (rapid + synctest): written bytes vs. the model file",
     text="Stream: exact byte sequence; Parallel: every WriteAt matches the file, spans tile [0,size) without gap or overlap; returned type equals served type; requests stay on the part grid.",
     note="")
 add("C34", "c_files",
-    [T("TestC34", 2500, 25000, env=BUBBLE), T("TestC34Parallel", 1500, 15000, env={"GOMAXPROCS": "4"}), T("TestC34Plan", 1, 1, rapid=False, env=BUBBLE, timeout_thorough=2400)],
+    [T("TestC34", 2500, 25000, env=BUBBLE), T("TestC34Parallel", 1500, 15000, env={"GOMAXPROCS": "4"}), T("TestC34HashFlood", 12, 120, env={"GOMAXPROCS": "4"}, shards=4), T("TestC34Plan", 1, 1, rapid=False, env=BUBBLE, timeout_thorough=2400)],
     pre=["TestC34Regression_short_cdn_reply_accepted", "TestC34Regression_overlong_cdn_reply_delivered", "TestC34Regression_bytes_past_verified_tail"],
     rule="genuine files <= 4 MiB with regular/irregular hash windows, honest hash service on all four paths, modes master-verify / cdn-inline (x3) / cdn-verify, part sizes aligned and not aligned with windows, 1..4 threads, events (master-direct, reupload, token invalid, fingerprint errors), adversarial CDN mutations (flip, truncate, truncate at window, empty, extend with genuine/garbage, other offset, swap, wrong counter base) keyed by file position; plus the complete (offset, limit) grid of the CDN request plan (quick 272x136, thorough 600x300, exhaustive:true). non-trivial = a served reply was actually changed (TestC34) / plan needs >1 request (plan); distinct by parameters. Replies shorter than the asked limit in cdn-inline mode are the shape of the listed known finding and are excluded at the adversary (counted)",
     technique="adversarial PBT on virtual time (rapid + synctest) with a reference CDN (AES-CTR, SHA-256, plan predicate in pbt/ref/cdn.go) + exhaustive enumeration of the request-plan grid",
